@@ -22,6 +22,7 @@ from ..replay import Divergence
 SPEC_DIR = env.SPECS + "/aid"
 INVARIANTS = ["DivIsTab16", "DivIsTab64", "InRange", "Codeword16", "Codeword64", "Affine16", "Affine64", "SingleBit"]
 MAX_REPORTED = 4      # divergences reported per function (a broken CRC disagrees on nearly every input)
+JVM_OPTS = "-Xmx3g -XX:ParallelGCThreads=2 -XX:CICompilerCount=2"    # many single-worker TLC processes side by side
 
 
 def _cfg(maxlen, shard, nshards, divmax):
@@ -83,7 +84,7 @@ def run_c41(ctx):
         with open(cases, "w") as f:
             json.dump([{"m": m} for m in rand[k::nshards]], f)
         res = tlc.run("Crc", _cfg(2, k, nshards, divmax), spec_dir=SPEC_DIR, workers=1,
-                      extra_env={"TABLE_OUT": out, "CASES_FILE": cases}, tag="c41-%d" % k)
+                      extra_env={"TABLE_OUT": out, "CASES_FILE": cases, "JAVA_TOOL_OPTIONS": JVM_OPTS}, tag="c41-%d" % k)
         return k, res, out
 
     with ThreadPoolExecutor(max_workers=nshards) as ex:
